@@ -492,10 +492,10 @@ def check_content_format(prog, rep):
         if t["k"] != "call" or bb["cleanup"]:
             continue
         p = provenance.callee_path(t)
-        if p in ("packet::Packet::add_option_as", "packet::Packet::set_options_as"):
-            typed.append(t)
-        elif p in ("packet::Packet::add_option", "packet::Packet::set_option"):
+        if p in ("packet::Packet::add_option", "packet::Packet::set_option"):
             raw.append(t)
+        elif p.startswith("packet::Packet::") and len(t["args"]) == 3 and any("option_value::OptionValue" in prog.types[g_]["s"] for g_ in (t.get("resolved") or t.get("callee") or {}).get("gargs", [])):
+            typed.append(t)     # add_option_as / set_options_as / a private helper generic over the option value type
     ok = len(typed) == 1 and not raw
     why = "typed writes %d, raw writes %d" % (len(typed), len(raw))
     if ok:
